@@ -38,10 +38,26 @@ v_watchdog(unsigned secs)
   signal(SIGALRM, v_watchdog_fired);
 }
 
+// A line that starts with the word "fd0" is run with descriptor 0 closed, so that the first descriptor the library opens
+// is number 0 (a valid descriptor that "fd > 0" / "if (fd)" tests mistake for none).  Descriptor 0 is put back before the
+// next line is read.  The model ignores the prefix: its behaviour does not depend on descriptor numbers.
+static int v_fd0_saved = -1;
+
+static void
+v_fd0_restore(void)
+{
+  if (v_fd0_saved >= 0) {
+    dup2(v_fd0_saved, 0);
+    close(v_fd0_saved);
+    v_fd0_saved = -1;
+  }
+}
+
 // Read the next non-empty, non-comment line and split it at blanks.  Returns argc, -1 at EOF.
 static int
 v_next(FILE* in, char** argv)
 {
+  v_fd0_restore();
   if (v_watchdog_secs) alarm(v_watchdog_secs);
   while (fgets(v_line, sizeof(v_line), in)) {
     int   argc = 0;
@@ -65,6 +81,12 @@ v_next(FILE* in, char** argv)
     }
     if (argc == 0 || argv[0][0] == '#') {
       continue;
+    }
+    if (argc > 1 && !strcmp(argv[0], "fd0")) {
+      for (int i = 1; i < argc; ++i) argv[i - 1] = argv[i];
+      --argc;
+      v_fd0_saved = dup(0);
+      if (v_fd0_saved >= 0) close(0);
     }
     return argc;
   }
